@@ -92,10 +92,15 @@ def run_dir(case, rev):
     # files in calendar order
     cal = [sorted(g, key=lambda s: sgn * s) for g in groups]
     cal.sort(key=lambda g: sgn * g[0])
-    off = 200 if case.get("offgrid") else 0  # seconds later in simulation order (the first frame stays, so the window is covered)
+    off = 200.4 if case.get("offgrid") else 0  # seconds (with a sub-second part) later in simulation order; the first frame stays, so the window is covered
     first = min(case["layout"])
     for fi, g in enumerate(cal):
-        W.write_file(d / f"f_{fi:02d}.nc", [dict(t=S0 + sgn * (s * DT + (off if s != first else 0)), **field(s, 1 if rev else -1)) for s in g],
+        last = max(case["layout"])
+        # middle frames: 0.4 s BEFORE a step boundary in simulation order (in a reversed run: a fraction of a second after a model time)
+        lay_ = sorted(case["layout"])
+        gap = {s_: s_ - lay_[i_ - 1] for i_, s_ in enumerate(lay_) if i_ > 0}  # a frame moved back must not share a step with its predecessor
+        foff = lambda s_: 0 if (not off or s_ == first) else (-0.4 if (s_ != last and gap[s_] >= 2) else (off if gap[s_] >= 2 or s_ == last else 0))  # noqa: E731
+        W.write_file(d / f"f_{fi:02d}.nc", [dict(t=S0 + sgn * (s * DT + foff(s)), **field(s, 1 if rev else -1)) for s in g],
                      storage=case.get("storage", "f8"), scale=dict(u=(2.0 ** -12, 0.0), v=(2.0 ** -12, 0.0)))
     tab = TABLES[case["table"]]
     rows = []
